@@ -57,6 +57,9 @@ def cg_class(name):
             else:
                 self._enums.append(None)
                 d["v%d" % j] = vsc.int_t(cp["width"]) if cp["signed"] else vsc.bit_t(cp["width"])
+        for k, v in (param.get("cg_options") or {}).items():
+            if v is not None:
+                setattr(self.options, k, v)
         self.with_sample(d)
         cpl = []
         for j, cp in enumerate(cps):
